@@ -4,4 +4,19 @@ META = {
  "C01": dict(design_ref="DESIGN.md section 7 C01", technique="property-based round trip (rapid), source pixels as oracle",
    text="Generated-input search: thousands of generated pictures (all Go image types, placements, palette/alpha classes, sizes incl. tile boundaries) x lossless options are encoded and decoded; every pixel is compared with the source. Finds any reachable round-trip loss in the sampled domain; does not prove absence.",
    note="Trusts Go's image/color conversions for reading the source, rapid's generators, and the in-process webp.Decode as the decoder under test (decoder/encoder cancelling errors are covered by C02/C03 via libwebp)."),
+ "C02": dict(design_ref="DESIGN.md section 7 C02", technique="property-based testing with structural validator + 3-way differential decoding (libwebp, x/image)",
+   text="Generated-input search over images x the whole option product; every successful Encode is checked by an independent container/bitstream-header validator and decoded by two independent decoders whose output must equal the package's. Explores thousands of option combinations per run; cannot reach the 512 KiB partition-0 limit or 16383x16383 pictures.",
+   note="Trusts libwebp 1.2.4 and x/image as reference decoders (disagreement between them = inconclusive), the /verif RIFF walker and VP8 header reader written from the specifications."),
+ "C07": dict(design_ref="DESIGN.md section 7 C07", technique="property-based round trip on the alpha plane + libwebp differential",
+   text="Generated pictures with every alpha pattern x alpha options; decoded alpha compared with the source exactly (AlphaQuality 100) or against the documented quantisation contract. Random search, no proof of absence.",
+   note="Trusts libwebp's alpha decoding as witness; documented level mapping taken from the package's own comment."),
+ "C15": dict(design_ref="DESIGN.md section 7 C15", technique="property-based metamorphic test (with vs without metadata) + read-back through three readers",
+   text="Generated blobs and subsets over still and animated outputs; byte-exact storage, flag/chunk agreement and picture invariance are checked on every case; the 100 MB cap is probed in the thorough tier.",
+   note="Trusts the /verif RIFF walker for locating chunks; pool state normalised before compared encodes."),
+ "C19": dict(design_ref="DESIGN.md section 7 C19", technique="property-based metamorphic test (equivalent storage layouts => identical bytes)",
+   text="For each generated picture several equivalent in-memory presentations must give byte-identical output and leave the caller's buffer untouched; covers the NRGBA/RGBA fast paths, the generic At() path, alpha scan, cleanup, sharp-YUV and lossless import.",
+   note="Semi-transparent premultiplied sources are outside the property's domain. Pool state normalised before compared encodes."),
+ "C20": dict(design_ref="DESIGN.md section 7 C20", technique="property-based boundary-value testing against the documented option contract",
+   text="Boundary and out-of-range values for every option field, sentinel equivalences, lossy-only options under lossless, nil arguments and boundary image sizes; each case is judged against the documented contract (error vs valid file, byte equality with the documented default).",
+   note="The 'documented contract' is my transcription of the EncoderOptions field comments (function documentedValid); pool state normalised before compared encodes."),
 }
